@@ -51,7 +51,7 @@ class _KeyIter(Generic[LT]):
     @classmethod
     def from_iters(
         cls,
-        iterables: "tuple[AnyIterable[T], ...]",
+        iterators: "list[AsyncIterator[T]]",
         reverse: bool,
         key: Callable[[T], Awaitable[LT]],
     ) -> "AsyncIterator[_KeyIter[LT]]": ...
@@ -59,18 +59,17 @@ class _KeyIter(Generic[LT]):
     @overload
     @classmethod
     def from_iters(
-        cls, iterables: "tuple[AnyIterable[LT], ...]", reverse: bool, key: None
+        cls, iterators: "list[AsyncIterator[LT]]", reverse: bool, key: None
     ) -> "AsyncIterator[_KeyIter[LT]]": ...
 
     @classmethod
     async def from_iters(
         cls,
-        iterables: "tuple[AnyIterable[Any], ...]",
+        iterators: "list[AsyncIterator[Any]]",
         reverse: bool,
         key: Optional[Callable[[Any], Any]],
     ) -> "AsyncIterator[_KeyIter[Any]]":
-        for iterable in iterables:
-            iterator = aiter(iterable)
+        for iterator in iterators:
             try:
                 head = await iterator.__anext__()
             except StopAsyncIteration:
@@ -121,14 +120,17 @@ async def merge(
     The ``iterables`` must be pre-sorted in the same order.
     """
     a_key = awaitify(key) if key is not None else None
-    # sortable iterators with (reverse) position to ensure stable sort for ties
-    iter_heap: "list[tuple[_KeyIter[Any], int]]" = [
-        (itr, idx if not reverse else -idx)
-        async for idx, itr in a_enumerate(
-            _KeyIter[Any].from_iters(iterables, reverse, a_key)
-        )
-    ]
+    # we own all iterators from the start and close them all in the end
+    iterators = [aiter(iterable) for iterable in iterables]
+    del iterables
     try:
+        # sortable iterators with (reverse) position to ensure stable sort for ties
+        iter_heap: "list[tuple[_KeyIter[Any], int]]" = [
+            (itr, idx if not reverse else -idx)
+            async for idx, itr in a_enumerate(
+                _KeyIter[Any].from_iters(iterators, reverse, a_key)
+            )
+        ]
         _heapq.heapify(iter_heap)
         # there are at least two iterators that need merging
         while len(iter_heap) > 1:
@@ -147,9 +149,9 @@ async def merge(
             async for item in itr.tail:
                 yield item
     finally:
-        for itr, _ in iter_heap:
-            if isinstance(itr.tail, ACloseable):
-                await itr.tail.aclose()
+        for iterator in iterators:
+            if isinstance(iterator, ACloseable):
+                await iterator.aclose()
 
 
 class ReverseLT(Generic[LT]):
